@@ -38,12 +38,15 @@ Definition inrange (a : arr) (n : Z) : Prop := forall i, 0 <= i < n -> get a i <
 Definition inrange_b (a : arr) (n : Z) : bool :=
   forallb (fun i => match get a i with Some _ => true | None => false end) (zrange n).
 
-(* an image U over flat indices that lies above the initial image plane and that no dilate-and-clip
-   step along the stride table can raise (mask plane = upper half of v0, constant) *)
-Definition flat_postfixed (g : geom) (strides : list Z) (v0 : arr) (U : Z -> Z) : Prop :=
-  (forall i, 0 <= i < gS g -> sel v0 i <= U i) /\
-  (forall i st, 0 <= i < gS g -> interior_b g i = true -> In st strides ->
-     Z.min (sel v0 (i + st + gS g)) (U i) <= U (i + st)).
+(* an image U over the interior flat indices that lies above the (decoded) initial image plane and
+   that no dilate-and-clip step along the stride table can raise (mask plane = upper half of v0) *)
+(* [dec] decodes ranks to values; only its monotonicity on [0, K) matters *)
+Definition mono_on (K : Z) (dec : Z -> Z) : Prop :=
+  forall a b, 0 <= a -> a <= b -> b < K -> dec a <= dec b.
+Definition flat_postfixed (g : geom) (strides : list Z) (v0 : arr) (dec : Z -> Z) (U : Z -> Z) : Prop :=
+  (forall i, 0 <= i < gS g -> interior_b g i = true -> dec (sel v0 i) <= U i) /\
+  (forall i st, 0 <= i < gS g -> interior_b g i = true -> In st strides -> interior_b g (i + st) = true ->
+     Z.min (dec (sel v0 (i + st + gS g))) (U i) <= U (i + st)).
 
 Record Inv (g : geom) (K : Z) (strides : list Z) (v0 : arr) (s : st) : Prop := mkInv {
   i_rv : inrange (vals s) (2 * gS g);
@@ -59,7 +62,8 @@ Record Inv (g : geom) (K : Z) (strides : list Z) (v0 : arr) (s : st) : Prop := m
   i_vk : forall i, 0 <= i < 2 * gS g -> 0 <= sel (vals s) i < K;
   i_lo : forall i, 0 <= i < gS g -> sel v0 i <= sel (vals s) i <= sel (vals s) (i + gS g);
   i_mk : forall i, gS g <= i < 2 * gS g -> sel (vals s) i = sel v0 i;
-  i_le : forall U, flat_postfixed g strides v0 U -> forall i, 0 <= i < gS g -> sel (vals s) i <= U i }.
+  i_le : forall dec U, mono_on K dec -> flat_postfixed g strides v0 dec U ->
+         forall i, 0 <= i < gS g -> interior_b g i = true -> dec (sel (vals s) i) <= U i }.
 
 Definition inv_check (g : geom) (K : Z) (s : st) : bool :=
   let n := 2 * gS g in
